@@ -150,6 +150,31 @@ extern "C" void h_bech32_errors()
     VREACH("end");
 }
 
+// character screening of Decode (BIP173: "Decoders MUST NOT accept strings where some characters are uppercase and some are lowercase",
+// and only printable US-ASCII 33..126): real CheckCharacters on every string of CLEN bytes, every byte value symbolic
+#ifndef CLEN
+#define CLEN 4
+#endif
+extern "C" void h_bech32_case()
+{
+    std::string str(CLEN, 'q');                      // short-string storage, no heap shape involved
+    bool lower = false, upper = false, bad = false;
+    for (int i = 0; i < CLEN; i++) {
+        const unsigned char c = nondet_u8(); str[i] = (char)c;
+        // reference by enumeration of the two alphabets (no range arithmetic shared with the code under test)
+        bool lo = false, up = false;
+        for (int k = 0; k < 26; k++) { lo = lo || c == "abcdefghijklmnopqrstuvwxyz"[k]; up = up || c == "ABCDEFGHIJKLMNOPQRSTUVWXYZ"[k]; }
+        lower = lower || lo; upper = upper || up; bad = bad || c < 33 || c > 126;
+    }
+    std::vector<int> errors; errors.reserve(CLEN);   // no reallocation on symbolic paths
+    const bool ok = bech32::CheckCharacters(str, errors);
+    verif_observe(ok);
+    VASSERT(ok == !(bad || (lower && upper)), "CheckCharacters accepts iff every character is printable ASCII and letters are not mixed-case");
+    VASSERT(ok == errors.empty(), "error positions are reported iff the string is rejected");
+    VWITNESS(!ok && !bad, "a mixed-case string is rejected"); VWITNESS(ok && upper, "an all-upper-case string is accepted");
+    VREACH("end");
+}
+
 // the decoding table is the inverse of the encoding character set (both letter cases), and nothing else decodes
 extern "C" void h_bech32_tables()
 {
